@@ -510,6 +510,12 @@ class Model:
 
         instance.__dict__[attr][uid] = value
 
+        # discrete components that cache flags computed from this property must be evaluated again
+        if attr == "v":
+            for item in self.discrete.values():
+                if getattr(item, 'cache', False) and (getattr(item, 'u', None) is instance):
+                    item._eval = False
+
         # update differential equations' time constants stored in `dae.Tf`
 
         if attr == "v":
